@@ -184,6 +184,63 @@ func tie(r *rand.Rand, op string) tcase {
 	}
 }
 
+// tieBig is tie at the far end of the domain: divisors, factors and dropped
+// decimals as large as the 2^52 bound allows, the exact result one numerator
+// unit away from the tie (k + 1/2 -+ 1/(2d) for a division by an odd d of up
+// to 40 bits: the closest a quotient that is not a tie gets to one), where a
+// rounding that is only almost half away from zero shows.
+func tieBig(r *rand.Rand, op string) tcase {
+	e1 := uint32(r.Intn(5))
+	sign := int64(1)
+	if r.Intn(2) == 0 {
+		sign = -1
+	}
+	pm := int64(1 - 2*r.Intn(2))
+	switch op {
+	case "div", "remove", "pctFrom":
+		db := 20 + r.Intn(21)
+		d := (r.Int63()>>(63-uint(db)))|1 | 1<<uint(db-1) // odd, db bits
+		maxK := (int64(1)<<51)/d - 1
+		if maxK < 1 {
+			maxK = 1
+		}
+		k := r.Int63n(maxK)
+		n := ((2*k+1)*d + pm) / 2 // n/d = k + 1/2 +- 1/(2d)
+		if op == "div" {
+			return tcase{Op: op, V1: sign * n, E1: e1, V2: d, E2: 0, Stream: "tie-big"}
+		}
+		// factor 1 + p = d at exponent 0
+		return tcase{Op: op, V1: sign * n, E1: e1, V2: d - 1, E2: 0, Stream: "tie-big"}
+	case "mul", "pctOf":
+		e2 := uint32(1 + r.Intn(9))
+		half := pow10(e2) / 2
+		maxK := (int64(1)<<51)/pow10(e2) - 1
+		if maxK < 1 {
+			maxK = 1
+		}
+		k := r.Int63n(maxK)
+		target := (2*k+1)*half + pm*int64(r.Intn(2))
+		for _, v2 := range []int64{1, 3, 7, 5, 2} {
+			if target%v2 == 0 {
+				return tcase{Op: op, V1: sign * (target / v2), E1: e1, V2: v2, E2: e2, Stream: "tie-big"}
+			}
+		}
+		return tcase{Op: op, V1: sign * target, E1: e1, V2: 1, E2: e2, Stream: "tie-big"}
+	default:
+		drop := uint32(1 + r.Intn(9))
+		maxK := (int64(1)<<51)/pow10(drop) - 1
+		if maxK < 1 {
+			maxK = 1
+		}
+		k := r.Int63n(maxK)
+		v := (2*k+1)*(pow10(drop)/2) + pm*int64(r.Intn(2))
+		if op == "add" || op == "sub" {
+			return tcase{Op: op, V1: k % 1000, E1: e1, V2: sign * v, E2: e1 + drop, Stream: "tie-big"}
+		}
+		return tcase{Op: op, V1: sign * v, E1: e1 + drop, N: int64(e1), Stream: "tie-big"}
+	}
+}
+
 func randVal(r *rand.Rand, bits int) int64 {
 	b := 1 + r.Intn(bits)
 	v := r.Int63() >> (63 - uint(b))
@@ -274,6 +331,9 @@ func Run(c *core.Ctx) int {
 	for i := 0; i < nt; i++ {
 		op := tieOps[r.Intn(len(tieOps))]
 		t := tie(r, op)
+		if r.Intn(2) == 0 {
+			t = tieBig(r, op)
+		}
 		if op == "downscale" {
 			t.N = int64(t.E1) - t.N
 		}
